@@ -90,7 +90,8 @@ class State:
     def inp(self, n=None):
         return self.inps[-1 if n is None else n]
 
-    SEG_KINDS = {"emit": 0, "add_alt": 0, "add_alt_err": 0, "memwrite": 2, "memo": 1, "rewind_input": 0}
+    SEG_KINDS = {"emit": 0, "add_alt": 3, "add_alt_err": 2, "memwrite": 2, "memo": 1, "rewind_input": 0,
+                 "cap": 3, "stash": 2, "oparg": 2}
 
     def ev(self, *e):
         self.trace = self.trace + (e,)
